@@ -350,7 +350,8 @@ class PrecomputedCategoricalDissimilarity(CategoricalDissimilarity):
     def __init__(self, categories: SortedSet, matrix: np.ndarray, delta_empty: float = 1.0):
         assert matrix.shape == (len(categories), len(categories)), \
             "Provided categorical dissimilarity matrix's shape doesn't match number of categories."
-        self._matrix = matrix
+        # The compiled form freezes the values at compilation : d() reads a private copy, not the caller's array.
+        self._matrix = np.array(matrix)
         super().__init__(categories, delta_empty)
 
     def compile_d_mat(self):
